@@ -206,15 +206,14 @@ func (p *StreamPool) getConnection(k key, end bool, ts time.Time, tcp *layers.TC
 	verifYieldRW(5, &p.mu, true)
 	p.mu.Lock()
 	defer p.mu.Unlock()
-	conn, half, rev = p.newConnection(k, s, ts)
-	conn2, half2, rev2 := p.getHalf(k)
-	if conn2 != nil {
-		if conn2.key != k {
-			panic("FIXME: other dir added in the meantime...")
-		}
+	// Another assembler may have added the connection in the meantime, for
+	// this direction or for the other one: getHalf returns its halves in the
+	// right order either way and the stream just created is dropped.
+	if conn2, half2, rev2 := p.getHalf(k); conn2 != nil {
 		// FIXME: delete s ?
 		return conn2, half2, rev2
 	}
+	conn, half, rev = p.newConnection(k, s, ts)
 	p.conns[k] = conn
 	return conn, half, rev
 }
